@@ -735,3 +735,6 @@ EXPLANATION += (
 ASSUMPTIONS = ["the AST node address identifies the node (arena-allocated, never moved)"]
 TRUSTED = ["rustc nightly MIR", "nsx exporter", "nsverif edge-dominance"]
 NONTRIVIAL = "one obligation per keyed accessor call site, traversal, table, pairing and record/consume pair"
+EXPLANATION += (
+    " Round 6: R10 - the variables of a block that defines functions exist from block entry whatever the textual order of `make` and definition (shared with C06-R5's discharge, which now also rejects a flag tested inside the loop that computes it). R11 - every search over the checker's variable scopes goes innermost-first."
+)
